@@ -44,9 +44,9 @@ const (
 // Numbers travel as primitive 63-bit literals (CaseDefs.v: wz): [0,2^61) as is,
 // [2^63-2^60, 2^63+2^60) and [2^64-2^62, 2^64) shifted into [2^61,2^62) and [2^62,2^63).
 const (
-	p60 = uint64(1) << 60
-	p61 = uint64(1) << 61
-	p62 = uint64(1) << 62
+	p60   = uint64(1) << 60
+	p61   = uint64(1) << 61
+	p62   = uint64(1) << 62
 	top62 = uint64(3) << 62 // 2^64 - 2^62
 )
 
@@ -92,7 +92,7 @@ func randRID(r *rng.R) uint64 {
 	return top62 + r.U64()>>2
 }
 
-func zb(b bool) string   { return casefile.Bool(b) }
+func zb(b bool) string { return casefile.Bool(b) }
 
 // nest renders a monomorphic wire list (see CaseDefs.v): (cons item1 (cons item2 ... nil))
 func nest(cons, nilName string, items []string) string {
@@ -483,7 +483,7 @@ func genQueries(r *rng.R, creation uint64, mids []uint64, n int, allowHuge bool)
 		case 7:
 			return rng.Pick(r, []uint64{0, 1, two63 - 1, mn / 2, mx + 1000*dayMs})
 		case 8:
-			if allowHuge && r.Chance(1, 4) {
+			if allowHuge && r.Chance(1, 2) {
 				return rng.Pick(r, []uint64{two63, math.MaxUint64})
 			}
 			return satAdd(rng.Pick(r, mids), int64(r.Range(-minuteMs, minuteMs)))
@@ -680,8 +680,10 @@ type storeIn struct {
 	SealLast bool        `json:"seal_last"`
 	Restart  string      `json:"restart"` // none | header | cache
 	Qs       [][2]uint64 `json:"qs"`
-	Seed     uint64      `json:"gen_seed,omitempty"` // big stores are replayed from their generator seed
-	Big      int         `json:"big,omitempty"`
+	// absent IDs (MID >= 2^63, incl. MaxUint64) requested together with every stored ID
+	FetchExtra [][2]uint64 `json:"fetch_extra,omitempty"`
+	Seed       uint64      `json:"gen_seed,omitempty"` // big stores are replayed from their generator seed
+	Big        int         `json:"big,omitempty"`
 }
 
 var mapping = seq.Mapping{"k": seq.NewSingleType(seq.TokenizerTypeKeyword, "", 0)}
@@ -795,7 +797,11 @@ func observeStore(w *casefile.Writer, in storeIn, fracs fracmanager.List, phase 
 	}
 	var fetched []string
 	if in.Big == 0 {
-		docs, err := fracbuild.Fetch(fracs, all)
+		req := append(append([]seq.ID{}, all...), toIDs(in.FetchExtra)...)
+		if len(in.FetchExtra) > 0 {
+			w.Count("fetch:with-ids>=2^63")
+		}
+		docs, err := fracbuild.Fetch(fracs, req)
 		if err != nil {
 			w.Violate("error:store-fetch", "fetch over the store fails: "+err.Error(), input)
 			return
@@ -924,7 +930,14 @@ func genStore(r *rng.R) storeIn {
 		}
 		fr.Docs = docs
 		in.Fracs = append(in.Fracs, fr)
-		in.Qs = append(in.Qs, genQueries(r, creation, mids, 8, false)...)
+		in.Qs = append(in.Qs, genQueries(r, creation, mids, 8, true)...)
+		// every store: one query per fraction with the end beyond int64 and the start at / inside the documents
+		in.Qs = append(in.Qs, [2]uint64{rng.Pick(r, mids), rng.Pick(r, []uint64{two63, math.MaxUint64, two63 + 12345})})
+	}
+	if r.Chance(2, 3) {
+		for k := r.Range(1, 2); k > 0; k-- {
+			in.FetchExtra = append(in.FetchExtra, [2]uint64{rng.Pick(r, []uint64{two63, math.MaxUint64, math.MaxUint64 - 1, two63 + 777}), randRID(r)})
+		}
 	}
 	return in
 }
@@ -953,7 +966,8 @@ func genBigStore(seed uint64, n int) storeIn {
 	}
 	in := storeIn{Seed: seed, Big: n, SealLast: true, Restart: "header",
 		Fracs: []fracIn{{Creation: creation, Docs: docs, Class: "multiblock"}}}
-	in.Qs = genQueries(r, creation, mids, 3, false)
+	in.Qs = genQueries(r, creation, mids, 3, true)
+	in.Qs = append(in.Qs, [2]uint64{creation - spread/2, math.MaxUint64})
 	// queries aimed at block borders
 	ids := toIDs(docs)
 	sortDesc(ids)
@@ -1061,9 +1075,11 @@ func main() {
 	w.Extra["exhaustive_scope"] = "util.Bitmask: every subset of set bits x every interval l<=r for small sizes; " +
 		"MIDsDistribution: grid of windows/buckets (whole seconds and milliseconds) x every single/pair of added points x every query interval over the grid points; " +
 		"getLIDsBorders: every sub-list of a small ID universe x every (from,to) in 0..6"
-	// documented witness (Props.v: C14_query_end_above_int63_refuted): query end MaxUint64, start inside the window
+	// permanent regression (repaired by 6d376ea; Props.v: C14_query_end_above_int63_v0_refuted / _repaired):
+	// query end MaxUint64 / 2^63, start inside the window - the spec checker requires `true` now
 	runInfo(w, infoIn{Creation: baseMs, Docs: []uint64{baseMs - 3600000}, Stub: true,
-		Qs: [][2]uint64{{baseMs - 3600000, math.MaxUint64}, {baseMs - 3600000, two63 - 1}, {0, math.MaxUint64}}}, "witness-to>=2^63")
+		Qs: [][2]uint64{{baseMs - 3600000, math.MaxUint64}, {baseMs - 3600000, two63}, {baseMs - 3600000, two63 - 1},
+			{baseMs - 1800000, math.MaxUint64}, {0, math.MaxUint64}}}, "regression-to>=2^63")
 	ri := r.Fork()
 	for i := 0; i < nInfo; i++ {
 		creation, mids, class := genDocs(ri, 30, true)
